@@ -23,6 +23,11 @@ type c01Prog struct {
 	plain bool
 }
 
+// the same program for the formal semantics (Folang/Sem): stream sem.prog
+func semProgSx(p c01Prog) string {
+	return "(sem.prog" + c01ProgSx(p)[len("(c01.prog"):]
+}
+
 func c01ProgSx(p c01Prog) string {
 	var fs []string
 	for _, f := range gHelperFuncs() {
@@ -115,6 +120,7 @@ func c01Batch(workdir string, progs []c01Prog, depth int) {
 			got = vsxStr(chunks[i])
 		}
 		vEmitIO(c01ProgSx(p), got)
+		vEmitIO(semProgSx(p), got)
 		vstat("programs")
 	}
 }
